@@ -372,6 +372,66 @@ def run(facts, res):
                           "listed before its parent is held back although the parent is in storage" % (name, late[0][0].name()), late[0][0].loc())
     res.floor("A4", "refresh/reload anchors", n4, 3)
 
+    # ------------------------------------------------------------------ A7 / A8 (added after seeds C02-g2, C12-g1)
+    from ..common import inlined_sites, iter_chain, PARTIAL_ADAPTERS
+    from ..conds import unaccepted
+    res.rule("A7", "the marking pass examines every Pending block of the block map; the applier inserts every record of the block it applies")
+    mp = R.body("mark_pass")
+    mk = R.path("marker")
+    n7 = 0
+    if mp is not None:
+        for s_ in inlined_sites(facts, mp, lambda t: t.callee.target() == mk):
+            n7 += 1
+            # the element the checker is called for comes from a whole iteration that starts at the block map itself
+            whole = False
+            for l in s_.lits:
+                if l.kind == "variant" and l.variants == {"Some"} and not l.derived:
+                    pt = peel(l.term)
+                    if pt[0] == "call" and callee_name(pt) == "next" and pt[2]:
+                        chain = iter_chain(pt[2][0])
+                        names = [callee_name(x) for x in chain]
+                        src = any(callee_name(c_) in ("iter", "keys", "values", "into_iter", "par_iter") and c_[2] and
+                                  any(x[0] == "field" and x[2] == "deltas" for x in walk(c_[2][0], False)) for c_ in chain)
+                        if src and not (set(names) & (PARTIAL_ADAPTERS | {"flat_map", "find", "find_map", "map_while"})):
+                            whole = True
+            if s_.body.kind == "closure":
+                for cs in cg.callers_of(s_.body.path):
+                    if s_.body in cs.closures and cs.term.args:
+                        chain = iter_chain(arg_term(cs.body, cs.term, 0, 30))
+                        names = [callee_name(x) for x in chain]
+                        src = any(callee_name(c_) in ("iter", "keys", "values", "into_iter", "par_iter") and c_[2] and
+                                  any(x[0] == "field" and x[2] == "deltas" for x in walk(c_[2][0], False)) for c_ in chain)
+                        sel = set(names) & (PARTIAL_ADAPTERS | {"flat_map", "find", "find_map", "map_while"})
+                        if sel == {"filter"} and _filters_select_exactly(facts, arg_term(cs.body, cs.term, 0, 30), "Pending"):
+                            sel = set()
+                        if src and not sel:
+                            whole = True
+
+            def status_only(l):
+                return (l.kind == "variant" and (l.adt == STATUS or (l.variants and l.variants <= {"Ok", "Some", "Continue"}))) or \
+                    (l.kind in ("call", "cmp") and any(status_variant(x) for x in walk(l.term)))
+            extra = [repr(l) for l in unaccepted(s_.lits, status_only)]
+            res.instance("A7", "%s: the dependency check is called for every block of the whole block map (%s) whose status is Pending (other conditions: %s)" % (
+                mp.path, whole, extra or "none"), s_.loc())
+            if not whole or extra:
+                res.violation("A7", "%s|not-every-pending-block-examined" % mp.path,
+                              "%s does not run the dependency check for every Pending block of the block map (whole map: %s, further conditions: %s): a block "
+                              "that is causally complete but not selected (e.g. not a head, while a sibling branch is incomplete) stays Pending and is never applied" % (
+                                  mp.path, whole, extra[:2]), s_.loc())
+    res.floor("A7", "dependency-check call sites in the marking pass", n7, 1)
+    ap_ = R.body("applier")
+    n8 = 0
+    if ap_ is not None:
+        for s_ in inlined_sites(facts, ap_, lambda t: t.callee.target() in ("revisiontree::RevisionTree::unvalidated_add", "revisiontree::RevisionTree::add")):
+            n8 += 1
+            extra = [repr(l) for l in unaccepted(s_.lits, lambda l: l.kind == "variant" and l.variants and l.variants <= {"Ok", "Some", "Continue"})]
+            res.instance("A7", "%s inserts every record of the block (no condition on the record or on the tree): %s" % (ap_.path, not extra), s_.loc())
+            if extra:
+                res.violation("A7", "%s|record-skipped" % ap_.path,
+                              "%s inserts a change record only under the condition %s: a Ready block takes effect as a whole - skipping a record makes the state "
+                              "rebuilt from storage differ from the state of the replica that made the change" % (ap_.path, extra[0]), s_.loc())
+    res.floor("A7", "tree insertion sites in the applier", n8, 1)
+
     # ------------------------------------------------------------------ A6 sibling agreement on bad items
     res.rule("A6", "reload, refresh and reload_until treat an unreadable / invalid listed item alike (sibling agreement)")
     from .. import iters
